@@ -23,9 +23,9 @@ HOSTILE_I = [0, 1, 0xFFFFFFFF, 0x80000000, 0x7FFFFFFF, 2, 0xFFFFFFFE, 31, 32, 33
 
 # operator programs: every hardened operator on operands read from a buffer
 OPS_SRC = """
-@group(0) @binding(0) var<storage, read_write> o: array<i32>;
+@group(0) @binding(0) var<storage, read_write> o: array<i32, 6>;
 @group(0) @binding(1) var<storage, read> a: array<i32, 2>;
-@group(0) @binding(2) var<storage, read_write> ou: array<u32>;
+@group(0) @binding(2) var<storage, read_write> ou: array<u32, 2>;
 @group(0) @binding(3) var<storage, read> au: array<u32, 2>;
 @compute @workgroup_size(1)
 fn main() {
@@ -43,7 +43,7 @@ fn main() {
 WG_SRC = """
 var<workgroup> w: array<u32, 4>;
 var<workgroup> ws: i32;
-@group(0) @binding(0) var<storage, read_write> o: array<u32>;
+@group(0) @binding(0) var<storage, read_write> o: array<u32, 3>;
 @compute @workgroup_size(1)
 fn main(@builtin(local_invocation_id) lid: vec3<u32>) {
   o[0] = w[0] + w[3];
@@ -199,15 +199,30 @@ def run(ctx):
                 break
         pol_stats[name] = {"runs": len(jobs), "bad": bad}
     ctx.cov["spirv_hostile"] = {"runs": nrun, "undefined_or_wrong": nub, "index_policies": pol_stats}
-    # ---- 5. text back ends: their own hostile suites, when the builders provide them
+    # ---- 5. HLSL: the hardened-operator program through the trapping HLSL interpreter (coq/Hlsl/Sem.v: integer
+    #         division by zero, INT_MIN/-1, out-of-range float->int are failed executions) on boundary operands,
+    #         under the protective option sets; harness of C03 (lib/c03diff.py)
     text = {}
-    for mod, fn in (("hlslcheck", "c15_hostile"), ("mslcheck", "c15_hostile"), ("glslcheck", "c15_hostile")):
-        try:
-            m = importlib.import_module(mod)
-            if hasattr(m, fn):
-                text[mod] = getattr(m, fn)(ctx, tools)
-        except ModuleNotFoundError:
-            text[mod] = "not available"
+    try:
+        import c03diff as D
+        htools = vcheck.build_harness(["hlsldrive"])
+        tools.update(htools)
+        hlslrun = ocamlbuild.build("hlslrun")
+        D.reset_enums()
+        hstats, hrecs = D.validate(tools, exe_ir, hlslrun, [("c15_ops", OPS_SRC), ("c15_wg", WG_SRC)],
+                                   ["default51", "sm60"], ctx.scale(24, 120), ctx.rng.fork("hlsl"))
+        text["hlsl"] = {k: hstats[k] for k in ("runs", "agree", "mismatch", "hlsl_ub", "out_of_fragment", "ir_undefined", "fuel")}
+        for rec in hrecs:
+            if rec["verdict"] in ("mismatch", "hlsl_ub"):
+                ctx.violation("HLSL: %s on hostile operands (program %s, options %s): %s" % (rec["verdict"], rec.get("program"), rec.get("optname"), rec.get("detail")),
+                              files={"input.wgsl": OPS_SRC, "record.json": json.dumps({k: v for k, v in rec.items() if k not in ("hlsl",)}, default=str)[:20000]},
+                              key="hlsl:%s:%s" % (rec["verdict"], str(rec.get("detail"))[:60]))
+                break
+        nrun += hstats["runs"]
+    except (ModuleNotFoundError, KeyError) as e:
+        text["hlsl"] = "not available: %s" % e
+    text["msl"] = "see C04 (coq/Msl, trapping interpreter mslrun): run by check C04"
+    text["glsl"] = "see C05 (coq/Glsl, trapping interpreter glslrun): GLSL emits no guards for / % << int(f); the property restricts GLSL to its index policy"
     ctx.cov["text_backends_hostile"] = text
     ctx.cov["evaluations"] = nrun
     ctx.cov["distinct_nontrivial"] = nrun
